@@ -607,7 +607,7 @@ func genDriver(pkgDir string) (string, []string, error) {
 			case len(m.Params) == 2: // server stream
 				stream := m.Params[1]
 				out := paramOf(stream, "Send")
-				fmt.Fprintf(&b, "func (%s) %s(in %s, st %s) error {\n\tfor i := 0; i < 3; i++ {\n\t\tif err := st.Send(%s); err != nil {\n\t\t\treturn err\n\t\t}\n\t}\n\treturn nil\n}\n\n", impl, m.Name, m.Params[0], stream, mk(out, `fmt.Sprintf("s:%s:%d", in.Get`+fieldFor(m.Params[0])+`(), i)`))
+				fmt.Fprintf(&b, "func (%s) %s(in %s, st %s) error {\n\tfor i := 0; i < 3; i++ {\n\t\tif err := st.Send(%s); err != nil {\n\t\t\treturn err\n\t\t}\n\t}\n\treturn st.Send(%s)\n}\n\n", impl, m.Name, m.Params[0], stream, mk(out, `fmt.Sprintf("s:%s:%d", in.Get`+fieldFor(m.Params[0])+`(), i)`), mk(out, `""`))
 			case has(m.Params[0], "SendAndClose"): // client stream
 				stream := m.Params[0]
 				out := paramOf(stream, "SendAndClose")
@@ -642,7 +642,7 @@ func genDriver(pkgDir string) (string, []string, error) {
 				fmt.Fprintf(&b, "\t{\n\t\tst, err := cli.%s(ctx)\n\t\tif err != nil {\n\t\t\treturn fmt.Errorf(\"%s.%s: %%w\", err)\n\t\t}\n\t\tfor i := 0; i < 2; i++ {\n\t\t\tif err := st.Send(%s); err != nil {\n\t\t\t\treturn fmt.Errorf(\"%s.%s send: %%w\", err)\n\t\t\t}\n\t\t\tout, err := st.Recv()\n\t\t\tif err != nil {\n\t\t\t\treturn fmt.Errorf(\"%s.%s recv: %%w\", err)\n\t\t\t}\n\t\t\tif out.Get%s() != \"b:\"+%s {\n\t\t\t\treturn fmt.Errorf(\"%s.%s: wrong echo %%q\", out.Get%s())\n\t\t\t}\n\t\t}\n\t\tst.CloseSend()\n\t\tst.Close()\n\t}\n", m.Name, svc, m.Name, mk(in, tag), svc, m.Name, svc, m.Name, fieldFor(out), tag, svc, m.Name, fieldFor(out))
 			default: // server stream
 				out := resultOf(res, "Recv")
-				fmt.Fprintf(&b, "\t{\n\t\tst, err := cli.%s(ctx, %s)\n\t\tif err != nil {\n\t\t\treturn fmt.Errorf(\"%s.%s: %%w\", err)\n\t\t}\n\t\tfor i := 0; i < 3; i++ {\n\t\t\tout, err := st.Recv()\n\t\t\tif err != nil {\n\t\t\t\treturn fmt.Errorf(\"%s.%s recv %%d: %%w\", i, err)\n\t\t\t}\n\t\t\tif out.Get%s() != fmt.Sprintf(\"s:%%s:%%d\", %s, i) {\n\t\t\t\treturn fmt.Errorf(\"%s.%s: wrong message %%q\", out.Get%s())\n\t\t\t}\n\t\t}\n\t\tif _, err := st.Recv(); err != io.EOF {\n\t\t\treturn fmt.Errorf(\"%s.%s: want EOF after 3 messages, got %%v\", err)\n\t\t}\n\t\tst.Close()\n\t}\n", m.Name, mk(m.Params[1], tag), svc, m.Name, svc, m.Name, fieldFor(out), tag, svc, m.Name, fieldFor(out), svc, m.Name)
+				fmt.Fprintf(&b, "\t{\n\t\tst, err := cli.%s(ctx, %s)\n\t\tif err != nil {\n\t\t\treturn fmt.Errorf(\"%s.%s: %%w\", err)\n\t\t}\n\t\tvar last %s\n\t\tfor i := 0; i < 3; i++ {\n\t\t\tout, err := st.Recv()\n\t\t\tif err != nil {\n\t\t\t\treturn fmt.Errorf(\"%s.%s recv %%d: %%w\", i, err)\n\t\t\t}\n\t\t\tif out.Get%s() != fmt.Sprintf(\"s:%%s:%%d\", %s, i) {\n\t\t\t\treturn fmt.Errorf(\"%s.%s: wrong message %%q\", out.Get%s())\n\t\t\t}\n\t\t\tlast = out\n\t\t}\n\t\t// the fourth message is an empty one, received into the message object that holds the third\n\t\tif rm, ok := st.(interface{ RecvMsg(%s) error }); ok {\n\t\t\tif err := rm.RecvMsg(last); err != nil {\n\t\t\t\treturn fmt.Errorf(\"%s.%s recvmsg: %%w\", err)\n\t\t\t}\n\t\t} else if last, err = st.Recv(); err != nil {\n\t\t\treturn fmt.Errorf(\"%s.%s recv 3: %%w\", err)\n\t\t}\n\t\tif last.Get%s() != \"\" {\n\t\t\treturn fmt.Errorf(\"%s.%s: the empty message received with RecvMsg into a used message object reads %%q\", last.Get%s())\n\t\t}\n\t\tif _, err := st.Recv(); err != io.EOF {\n\t\t\treturn fmt.Errorf(\"%s.%s: want EOF after 4 messages, got %%v\", err)\n\t\t}\n\t\tst.Close()\n\t}\n", m.Name, mk(m.Params[1], tag), svc, m.Name, out, svc, m.Name, fieldFor(out), tag, svc, m.Name, fieldFor(out), out, svc, m.Name, svc, m.Name, fieldFor(out), svc, m.Name, fieldFor(out), svc, m.Name)
 			}
 			calls = append(calls, svc+"."+m.Name)
 		}
